@@ -467,6 +467,14 @@ def check(pid: str, tier: str, seed: int):
            'history_length': {'min': min(lens, default=0), 'max': max(lens, default=0),
                               'mean': round(sum(lens) / max(1, len(lens)), 1)},
            'mismatches': len(bad), 'exhaustive': False}
+    if pid == 'C09':
+        # "a regenerated graph is indistinguishable from a freshly generated one": generate from a real language and
+        # model, edit the model and the graph, regenerate, compare with Gen.generate on the edited model
+        from . import p_gen
+        rg = p_gen.check('C09', tier, seed)
+        violations += rg['violations']
+        cov['regenerate'] = {k: rg['coverage'][k] for k in ('evaluations', 'distinct_nontrivial', 'mismatches', 'streams')}
+        cov['evaluations'] += rg['coverage']['evaluations']
     return {'violations': violations, 'coverage': cov,
             'trusted': ['object identity = dataclass equality on every generated history (distinct ids)'],
             'assumptions': ['operations are applied as the API intends (GraphOps.guard): nodes/attackers passed to '
